@@ -150,6 +150,33 @@ def run(prop, tier, seed, replay=None):
             st = c["steps"][rej["step"] - 1]
             rep.rejected(rej["clause"], {"kind": "entry_case", "world": c["world"], "step": st, "case_id": cid},
                          {"kflag": rej["kf"], "shape": st["shape"]})
+    # ---- the generated value dispatchers (Dependent / Literal annotations), as functions and as methods with self
+    from . import c10
+
+    vjobs = c10.gen_jobs(tier, seed + 300)
+    for q, j in enumerate(vjobs):
+        j["host"] = q % 2 == 0
+    vres = [c for c in pool.run(workers.dep_cases, vjobs) if "skip" not in c]
+    vcases = []
+    for c in vres:
+        c["id"] = "C03-v" + c["id"]
+        vcases.append({"id": c["id"], "props": ["C03V"], "world": c["world"],
+                       "steps": [{"call": st["call"], "obs": {"kind": st["obs"]["kind"], "entered": st["obs"]["entered"],
+                                                              "resolve": st["obs"]["resolve"], "predlog": st["obs"]["predlog"],
+                                                              "slf": st["obs"]["slf"]}} for st in c["steps"]]})
+    if vcases:
+        vv, r = tlc.judge("Trace_Resolve", vcases)
+        rep.add_tlc(r, "judge Trace_Resolve (C03VClause: arguments and self through the value dispatchers)")
+        rep.judged += len(vv)
+        vfull = {c["id"]: c for c in vres}
+        for cid, v in vv.items():
+            c = vfull[cid]
+            rep.evaluations += len(c["steps"])
+            for rej in static.rejections(v):
+                st = c["steps"][rej["step"] - 1]
+                rep.rejected(rej["clause"], {"kind": "dep_case", "world": c["world"], "step": st, "case_id": cid}, {})
+        rep.extra["value_dispatch_cases"] = len(vv)
+        rep.extra["value_dispatch_cases_with_self"] = len([j for j in vjobs if j["host"]])
     for c in res[:3]:
         rep.sample({"methods": [params_of(m) for m in c["world"]["methods"]], "steps": c["steps"][:3]})
     rep.rule = (
